@@ -815,7 +815,28 @@ def hygiene_traits(k0):
     return ts
 
 
-for tr in hygiene_traits(n12):
+def placeholder_trait(k):
+    """Oneway methods with placeholder arguments in front of, between and behind renamed and plain arguments."""
+    def arg(name, ty_i, wire=None):
+        a = dict(ARGS[ty_i]); a.update(name=name, var="a_" + name, key=name, wire=wire); return a
+    def ph(i, ty_i):
+        a = dict(ARGS[ty_i]); a.update(name="_", var=f"a_placeholder{i}", key=None, wire=None, skip=True); return a
+    shapes = [
+        [arg("volume", 5, "volumeId"), ph(1, 0), arg("new_size", 0, "newSize")],
+        [ph(0, 3), arg("alpha", 0, "Alpha")],
+        [arg("one", 0), ph(1, 1), arg("two", 5, "Two"), ph(3, 0), arg("three", 3, "three-3")],
+        [ph(0, 0), ph(1, 5), arg("last", 1, "theLast")],
+        [arg("first", 4, "theFirst"), ph(1, 0)],
+    ]
+    methods = [dict(name=f"ph{i}", kind="oneway", rename=None, style="elided", args=sh, out=OUTS[0]) for i, sh in enumerate(shapes)]
+    return dict(k=k, iface="org.example.Placeholders", methods=methods)
+
+
+_ht = hygiene_traits(n12)
+_pt = placeholder_trait(n12 + len(_ht))
+open(os.path.join(out, f"p{_pt['k']}.rs"), "w").write(trait_module(_pt))
+mods.append(("c12", f"p{_pt['k']}"))
+for tr in _ht:
     open(os.path.join(out, f"p{tr['k']}.rs"), "w").write(trait_module(tr))
     mods.append(("c12", f"p{tr['k']}"))
 for k in range(n05):
